@@ -406,6 +406,11 @@ def _cache_purity(ctx):
         pv = flow.provenance(setter[0], k)
         transformed = sorted(c for c in flow.prov_calls(pv) if c.split('.')[-1] in (
             'strip', 'lower', 'upper', 'casefold', 'replace', 'lstrip', 'rstrip', 'title', 'format', 'sub'))
+        if not transformed and norm(k) != sparam:
+            # sliced / indexed / otherwise derived key
+            derived = [x for x in flow.provenance(setter[0], k) if x[0] in ('sub',)]
+            if derived:
+                transformed = sorted({d[1][:30] for d in derived})
         ctx.tri(norm(k) == sparam and not transformed, bool(transformed), 'PURITY',
                 'TRS.trs setter looks the cache up under the input string itself',
                 detail_bad=f"the lookup key `{norm(k)}` went through {transformed}, but entries are stored under the raw "
